@@ -191,7 +191,7 @@ def Copy.close (k : Copy) : Copy × List Act :=
 /-- `copy_buf::getstr(std::string &)` -/
 def Copy.getstr (k : Copy) : Bytes × Copy :=
   let n := if k.started then k.pos else k.vec.length
-  (k.vec.take n, { k with base := 0, pos := 0, started := false })
+  (k.vec.take n, { k with vec := k.vec.take n, base := 0, pos := 0, started := false })
 
 /-! ## raw mode: `cgi_headers_parser` -/
 
